@@ -133,6 +133,14 @@ func C19(h ProxyHooks) func(*hx.Ctx) *hx.Outcome {
 				}
 			}
 		}
+		// the disk under the message log: slow, failing, full (the relay must not care)
+		disk := env.GenDisk(t, true, ".rtcm")
+		rt.SetFileHook(disk.Hook)
+		defer rt.SetFileHook(nil)
+		defer func() { diskProbes(o, disk) }()
+		if c.Detail {
+			o.Sample.(map[string]any)["message_log_disk"] = disk.Describe()
+		}
 		verdict := s.Run(func() {
 			h.Setup(c.TempDir())
 			empty = angle(h.EmptyStatus())
@@ -272,7 +280,7 @@ func C19(h ProxyHooks) func(*hx.Ctx) *hx.Outcome {
 		}
 		// message log: a prefix of the client's stream
 		logged, nf := readOne(c.TempDir(), "data.", ".rtcm")
-		if nf == 1 && !bytes.HasPrefix(up, logged) {
+		if nf == 1 && disk.Errors == 0 && !bytes.HasPrefix(up, logged) {
 			o.Fail("C19/message-log-differs", "the message log (%d bytes) is not a prefix of the client's stream", len(logged))
 		}
 		o.Nontrivial = len(up)+len(down) > 0
